@@ -35,6 +35,8 @@ const MODE_OFF: u8 = 0;
 const MODE_COUNT: u8 = 1;
 const MODE_GAPS: u8 = 2;
 const MODE_SHUTTLE: u8 = 3;
+/// free-running real OS threads: per-thread allocation count + counter monotonicity diagnostic
+const MODE_FREE: u8 = 4;
 
 static MODE: AtomicU8 = AtomicU8::new(MODE_OFF);
 /// number of hook calls (= ObjectId allocations) since last reset
@@ -45,6 +47,14 @@ static LOG: Mutex<Vec<(u8, u64)>> = Mutex::new(Vec::new());
 thread_local! {
     /// MODE_GAPS: the gap to add before the i-th allocation
     static GAP_PLAN: RefCell<Vec<u64>> = const { RefCell::new(Vec::new()) };
+}
+
+thread_local! {
+    /// MODE_FREE: allocations made by this OS thread in its current compilation
+    static FREE_ALLOCS: std::cell::Cell<u64> = const { std::cell::Cell::new(0) };
+    /// MODE_FREE: last counter value this thread read, and how often a read went backwards
+    static FREE_LAST: std::cell::Cell<u64> = const { std::cell::Cell::new(0) };
+    static FREE_REGRESSIONS: std::cell::Cell<u64> = const { std::cell::Cell::new(0) };
 }
 
 shuttle::thread_local! {
@@ -74,6 +84,18 @@ fn wf_hook() {
             CALLS.fetch_add(1, Ordering::Relaxed);
             let t = TIDX.with(|c| c.get());
             LOG.lock().unwrap().push((t, write_fonts::verif_hooks::counter()));
+        }
+        MODE_FREE => {
+            FREE_ALLOCS.with(|c| c.set(c.get() + 1));
+            // one atomic location read repeatedly by one thread can never appear to go backwards
+            // (read-read coherence) if it is only ever incremented: diagnostic only, no verdict
+            let now = write_fonts::verif_hooks::counter();
+            FREE_LAST.with(|l| {
+                if now < l.get() {
+                    FREE_REGRESSIONS.with(|r| r.set(r.get() + 1));
+                }
+                l.set(now);
+            });
         }
         _ => {}
     }
@@ -122,6 +144,7 @@ fn worker_main(job: &Value) -> Value {
         "gap" => worker_gap(job, &refs),
         "hist" => worker_hist(job, &refs),
         "seed" => worker_seed(job),
+        "free" => worker_free(job, &refs),
         "dump" => {
             let item = job["item"].as_u64().unwrap() as usize;
             match compile_guarded(item) {
@@ -423,6 +446,86 @@ fn worker_hist(job: &Value, refs: &Value) -> Value {
            "end_counter": write_fonts::verif_hooks::counter().to_string()})
 }
 
+/// Free-running pass (auxiliary, *sampling*): `threads` real OS threads, released together by a
+/// barrier at the start of each of `rounds` rounds, each compiling one value of `items` (thread t in
+/// round r compiles items[(t + r) % len]); every result is compared with the single-threaded bytes.
+/// This reaches interleavings *inside* `ObjectId::next` (finer than the hook's scheduling point), which
+/// the shuttle search cannot; whatever it observes is a real execution, so a mismatch is reportable,
+/// but absence of mismatches proves nothing beyond the executions that happened.
+fn worker_free(job: &Value, refs: &Value) -> Value {
+    let items: Vec<usize> = job["items"].as_array().unwrap().iter().map(|v| v.as_u64().unwrap() as usize).collect();
+    let threads = job["threads"].as_u64().unwrap() as usize;
+    let rounds = job["rounds"].as_u64().unwrap() as usize;
+    let mut seq: BTreeMap<usize, (Vec<u8>, u64)> = BTreeMap::new();
+    for &it in &items {
+        let (r, n) = counted_compile(it);
+        let b = match r {
+            Ok(b) => b,
+            Err(e) => return json!({"machinery": format!("sequential compile failed: {e}")}),
+        };
+        if bytes_digest(&b) != refs[it.to_string()] {
+            return json!({"machinery": "free worker: in-process reference differs from fresh-process reference"});
+        }
+        seq.insert(it, (b, n));
+    }
+    let seq = &seq;
+    let items = &items;
+    let barrier = std::sync::Barrier::new(threads);
+    let barrier = &barrier;
+    let mismatches: Mutex<Vec<Value>> = Mutex::new(vec![]);
+    let mismatches = &mismatches;
+    let mismatch_count = AtomicU64::new(0);
+    let mismatch_count = &mismatch_count;
+    let regressions = AtomicU64::new(0);
+    let regressions = &regressions;
+    MODE.store(MODE_FREE, Ordering::SeqCst);
+    let t0 = Instant::now();
+    std::thread::scope(|sc| {
+        for t in 0..threads {
+            std::thread::Builder::new()
+                .stack_size(8 << 20)
+                .spawn_scoped(sc, move || {
+                    FREE_LAST.with(|l| l.set(0));
+                    FREE_REGRESSIONS.with(|r| r.set(0));
+                    for r in 0..rounds {
+                        let it = items[(t + r) % items.len()];
+                        barrier.wait();
+                        FREE_ALLOCS.with(|c| c.set(0));
+                        let res = compile_guarded(it);
+                        let allocs = FREE_ALLOCS.with(|c| c.get());
+                        let (want, want_allocs) = &seq[&it];
+                        let what = match res {
+                            Ok(b) if &b == want && allocs == *want_allocs => None,
+                            Ok(b) if &b == want => Some(format!("made {allocs} ObjectId allocations, {want_allocs} single-threaded")),
+                            Ok(b) => Some(format!(
+                                "bytes differ (len {} vs {}, first difference at {:?})",
+                                b.len(),
+                                want.len(),
+                                b.iter().zip(want.iter()).position(|(x, y)| x != y)
+                            )),
+                            Err(e) => Some(e),
+                        };
+                        if let Some(what) = what {
+                            mismatch_count.fetch_add(1, Ordering::Relaxed);
+                            let mut m = mismatches.lock().unwrap();
+                            // keep the first mismatch of each item
+                            if !m.iter().any(|x| x["item"] == json!(it)) {
+                                m.push(json!({"item": it, "thread": t, "round": r, "what": what}));
+                            }
+                        }
+                    }
+                    regressions.fetch_add(FREE_REGRESSIONS.with(|r| r.get()), Ordering::Relaxed);
+                })
+                .expect("spawn");
+        }
+    });
+    MODE.store(MODE_OFF, Ordering::SeqCst);
+    let m = mismatches.lock().unwrap().clone();
+    json!({"threads": threads, "rounds": rounds, "compilations": threads * rounds,
+           "mismatches": m, "mismatch_count": mismatch_count.load(Ordering::Relaxed),
+           "counter_regressions": regressions.load(Ordering::Relaxed), "ms": t0.elapsed().as_secs_f64() * 1e3})
+}
+
 fn worker_seed(job: &Value) -> Value {
     let item = job["item"].as_u64().unwrap() as usize;
     let order = hash_order_probe();
@@ -536,6 +639,7 @@ fn body(run: &Run, replay: Option<&Value>) {
     run.rule("a case is (menu value, perturbation) where the perturbation is an ObjectId interleaving pattern of concurrent compilations (shuttle DFS), a foreign-gap assignment at the allocation points, a (counter preset, previously compiled value) history, or a (hash seed, repetition); distinct = distinct (value, perturbation) digests; non-trivial = the perturbation differs from the reference conditions (another thread allocated in between / a non-zero gap / non-zero preset or a prior compilation / seed != 0 or second in-process compilation)");
     run.assume("the ObjectId counter and std's hash seeds are the only process-level inputs of a compilation besides the value (DESIGN §1 grep: no other statics, clocks or I/O); a single atomic RMW location is totally ordered, so interleavings at allocation granularity are all behaviours");
     run.assume("cross-process byte equality is judged on (length, FNV-64, second 64-bit mix); in-process comparisons are on the full bytes");
+    run.assume("auxiliary free-running pass (real OS threads, barrier per round) is SAMPLING, not the deciding exploration: it exists to catch accesses finer than the hook's scheduling point (e.g. a non-atomic counter update inside ObjectId::next), which the schedule search executes atomically; every mismatch it reports is a real failing execution, its silence proves nothing beyond the executions that ran");
     run.assume("hash seeds are enumerated over a finite set through the getrandom(2)/getentropy seam; this is not exhaustive over iteration orders");
     let shim = match ensure_shim() {
         Ok(s) => s,
@@ -830,8 +934,65 @@ fn body(run: &Run, replay: Option<&Value>) {
     run.extra("hash_orders_distinct_over_seeds", json!(distinct_orders.len()));
     run.extra("schedule_searches", json!(sched_report));
     run.extra("min_id_patterns_in_a_schedule_search", json!(min_patterns));
-    if min_patterns <= 1 {
+    if min_patterns <= 1 && run.violations() == 0 {
         run.machinery_error("a schedule search saw only one id-interleaving pattern (vacuous: the hook did not yield)");
+    }
+    // ---- auxiliary free-running pass (sampling) ----------------------------------------------
+    // Runs after the job pool so that its threads really run in parallel. Fixed thread/round counts.
+    {
+        let threads: u64 = 32;
+        let (r_same, r_mix): (u64, u64) = run.tier.pick((250, 1000), (4000, 16000));
+        let mut free_jobs: Vec<Value> = vec![];
+        // all threads compile the same value (one job per small value) ...
+        for &i in &small {
+            free_jobs.push(json!({"k":"free","items":[i],"threads":threads,"rounds":r_same}));
+        }
+        // ... the allocation-dense value alone (the counter is hit every few dozen nanoseconds) ...
+        let dense = items.iter().position(|i| i.name == "multiple_subst_dense").expect("dense item");
+        free_jobs.push(json!({"k":"free","items":[dense],"threads":threads,"rounds":r_mix}));
+        // ... and different values side by side
+        let mut mix = small.clone();
+        mix.push(dense);
+        free_jobs.push(json!({"k":"free","items":mix,"threads":threads,"rounds":r_mix}));
+        let mut compilations = 0u64;
+        let mut mismatches = 0u64;
+        let mut regressions = 0u64;
+        let mut ms = 0.0f64;
+        for fj in &free_jobs {
+            let v = match sup.run_job(fj, 0) {
+                Ok(v) => v,
+                Err(e) => {
+                    run.machinery_error(&format!("free-running pass: {e}"));
+                    return;
+                }
+            };
+            let n = v["compilations"].as_u64().unwrap_or(0);
+            compilations += n;
+            mismatches += v["mismatch_count"].as_u64().unwrap_or(0);
+            regressions += v["counter_regressions"].as_u64().unwrap_or(0);
+            ms += v["ms"].as_f64().unwrap_or(0.0);
+            run.evals(n);
+            let d = digest_of(&("free", fj.to_string()));
+            all.insert(d);
+            nontrivial.insert(d);
+            for m in v["mismatches"].as_array().cloned().unwrap_or_default() {
+                let it = m["item"].as_u64().unwrap_or(0) as usize;
+                run.violation(
+                    &format!("free-running concurrent compile({}) differs from the single-threaded reference", items[it].name),
+                    &format!("{} OS threads x {} barrier rounds compiling {:?}: thread {} in round {} ({}) {} ({} of {} compilations of this job differ; counter seen going backwards {} times)",
+                        v["threads"], v["rounds"], fj["items"].as_array().unwrap().iter().map(|i| items[i.as_u64().unwrap() as usize].name).collect::<Vec<_>>(),
+                        m["thread"], m["round"], items[it].name, m["what"].as_str().unwrap_or(""), v["mismatch_count"], n, v["counter_regressions"]),
+                    json!({"job": fj, "seed": 0, "detail": m}),
+                );
+            }
+        }
+        run.count("free_running_compilations", compilations);
+        run.extra("free_running_pass", json!({
+            "kind": "sampling, not the deciding exploration",
+            "threads": threads, "rounds_same_value_per_job": r_same, "rounds_mixed_values": r_mix,
+            "jobs": free_jobs.len(), "compilations": compilations, "mismatches": mismatches,
+            "counter_regressions_observed": regressions, "worker_wall_ms": ms.round(),
+        }));
     }
     run.observe_many(&all, &nontrivial);
 }
